@@ -560,10 +560,7 @@ func responseWritten(ctx hap.Context, raw net.Conn) {
 	if sess == nil {
 		return
 	}
-	tmp := hap.NewConnection(quietConn{raw.RemoteAddr(), raw.LocalAddr()}, ctx) // registers a throw-away session under the same key …
-	ctx.SetSessionForConnection(sess, raw)                      // … so put the real one back
-	tmp.Write(nil)
-	sess.Decrypter() // (pre-repair code promoted here)
+	hap.VerifResponseWritten(sess) // what Connection.Write does after a response (hook, build tag verif)
 }
 
 // serveAccessory is the child side of startE2EChild.
